@@ -254,7 +254,9 @@ static ssize_t r_write_hook(int fd, const void *buf, size_t n, int *handled)
 	if (e == NULL)
 		return 0;
 	*handled = 1;
+	err = errno;
 	nb = !!(fcntl(fd, F_GETFL) & O_NONBLOCK);
+	errno = err;
 	if (eintr_mask & (1u << (nwrites++ % 32))) {
 		mt_log("WRITE r%d fd=%d nonblock=%d ret=-1 errno=EINTR%s injected\n", e->id, fd, nb, stale ? " stale" : "");
 		errno = EINTR;
@@ -268,11 +270,14 @@ static ssize_t r_write_hook(int fd, const void *buf, size_t n, int *handled)
 			mt_finish("FIN");
 		}
 	}
-	r = write(fd, buf, n);
-	err = r < 0 ? errno : 0;
-	mt_log("WRITE r%d fd=%d nonblock=%d ret=%ld errno=%s%s\n", e->id, fd, nb, (long)r, ename(err), stale ? " stale" : "");
-	mt_activity();
-	errno = err;
+	{
+		int before = errno;	/* a system call that succeeds leaves errno as it was */
+		r = write(fd, buf, n);
+		err = r < 0 ? errno : 0;
+		mt_log("WRITE r%d fd=%d nonblock=%d ret=%ld errno=%s%s\n", e->id, fd, nb, (long)r, ename(err), stale ? " stale" : "");
+		mt_activity();
+		errno = r < 0 ? err : before;
+	}
 	return r;
 }
 
@@ -328,8 +333,10 @@ static int r_action(char *op, int guard, char *a1, char *a2, char *rest)
 		CF[i].e = e;
 		e->hold++;				/* keep the entry alive while the child uses it */
 		mt_log("RAWPOST r%d owner=T%d n=%d ctx=child\n", e->id, e->owner, n);
-		while (n-- > 0)
+		while (n-- > 0) {
+			errno = EINTR;	/* errno holds whatever an earlier call left there */
 			iv_event_raw_post(&copy);
+		}
 		mt_log("RAWPOSTED r%d\n", e->id);
 		e->hold--;
 		if (!e->reg && !e->hold)
@@ -352,6 +359,7 @@ static int r_action(char *op, int guard, char *a1, char *a2, char *rest)
 		SH[s] = strdup(buf);
 		memset(&sa, 0, sizeof(sa));
 		sa.sa_handler = sigh;
+		sigfillset(&sa.sa_mask);	/* this application's handlers run with every signal blocked */
 		mt_sigaction(s, &sa, NULL);
 		return 1;
 	}
